@@ -3,6 +3,14 @@
 import json, subprocess
 
 CHECKS = {
+ "C01": dict(level="exploration", design="§4 C01",
+   technique="runtime monitoring: model-free convergence oracle - dumps of all opens that merged the same version set must be equal - under harness-chosen merge permutations (hook H2), withheld/revealed commits, partial merges and re-merged ancestors; request-log quiescence check",
+   text="Version sets with 3-6 frontier versions forked from different ancestors are merged under 8 schedules each: every permutation of the version list (all n! up to 4, sampled beyond), intermediate openers committing partial merges, retired ancestors put back, commits revealed one at a time. All dumps must be identical; a second read-write open must issue no PUT under root/ and keep s3db_version(). Exploration: version sets and schedules are sampled; permutations are exhausted for lists up to 4.",
+   note="Only visible rows are compared; equal write times on one key are not generated; trusts the instrumented store and hook H2 (identity when unset)."),
+ "C15": dict(level="exploration", design="§4 C15",
+   technique="runtime monitoring: dump equality before/after byte-identical retries + M-row model; decoded stamps from the bucket vs the write_time in force; s3db_conn read-back; expired-deadline behaviour",
+   text="Histories with retries of accepted statements re-executed with the same write_time and values at later points on any writer must leave the merged table unchanged and equal to the model; connection attributes are read back, stamps decoded from committed objects must equal the explicit write_time (or fall in the harness's own before/after bracket when cleared), an expired deadline must fail storage-touching statements only while set, other connections must be unaffected.",
+   note="Retries are byte-identical re-executions; default-time stamps are only bracketed; trusts the bucket decoder."),
  "C02": dict(level="exploration", design="§4 C02",
    technique="runtime monitoring: executable reference model (README multi-writer rules) over the accepted statements, compared with every writer's local view after each statement and with merged fresh opens",
    text="Random multi-writer histories with globally distinct, non-monotone write times, refresh points and transactions are run on the real extension; after every statement the writer's own dump must equal the model applied to its causal past, and read-only/read-write fresh opens at the end must equal the model over all committed statements; re-partitions of the same statements onto one writer must agree when they accept the same statements. Exploration: histories are sampled.",
